@@ -73,6 +73,8 @@ func c03Specs(tier string, seed int) []c03Spec {
 	}
 	out = append(out, c03Spec{Kind: "e3", Batch: []string{"Ao", "A2", "Bo"}, Conc: 2, Bound: bound, Days: 3}, c03Spec{Kind: "e3", Batch: []string{"Bo", "A"}, Conc: 2, Bound: -1, Days: 2}, c03Spec{Kind: "e3", Batch: []string{"Ag", "A"}, Conc: 2, Bound: -1, Days: 2})
 	out = append(out, c03Spec{Kind: "race", Conc: 4}, c03Spec{Kind: "race", Conc: 8})
+	// a project without configuration file (the first run generates one on disk): both orders of two lines with different overrides
+	out = append(out, c03Spec{Kind: "noconfig"})
 	// the same line again and again in fresh sessions (the runtime randomises map iteration per execution), with the
 	// batch-line arguments in every order
 	for _, n := range []string{"A", "B", "C"} {
@@ -196,6 +198,52 @@ func c03Run(raw json.RawMessage, c *mc.Ctx) {
 			}
 		}
 		c.Outcome("seq-identical")
+	case "noconfig":
+		common := "project=p2 plotNr=1 fcode=W parameter=par SoilFileExtension=csv WeatherRootFolder=./weather WeatherFolder=w InitSelection=1 StartYear=2001 EndDate=08052001 AnnualOutputDate=0105 " +
+			"AutoSowingHarvest=0 AutoFertilization=0 AutoIrrigation=0 AutoHarvest=0 OutputIntervall=1 ResultFileFormat=1 ManagementEvents=1 LeachingDepth=15"
+		lines := map[string]string{"X": common + " poligonID=X Fertilization=50 NDeposition=60 KcFactorBareSoil=0.6", "Y": common + " poligonID=Y"}
+		runOrder := func(order []string) map[string]string {
+			wr := scratchRoot()
+			defer os.RemoveAll(wr)
+			buildBatchWorld(wr, 30)
+			os.Remove(filepath.Join(wr, "project", "p2", "config.yml"))
+			out := map[string]string{}
+			for _, n := range order {
+				dir := filepath.Join(wr, "out", n)
+				r := proj.RunDisk(wr, append(strings.Fields(lines[n]), "resultfolder="+dir), dir)
+				c.Trace(1)
+				c.Transition(1)
+				if !r.Success {
+					out[n] = "FAILED: " + r.Err + r.Panic
+				} else {
+					out[n] = c03AllFiles(r)
+				}
+			}
+			return out
+		}
+		alone := map[string]string{"X": runOrder([]string{"X"})["X"], "Y": runOrder([]string{"Y"})["Y"]}
+		for n, t := range alone {
+			if strings.HasPrefix(t, "FAILED") || len(t) < 200 {
+				mc.HarnessError("C03 noconfig: line %s alone: %.300s", n, t)
+			}
+		}
+		if alone["X"] == strings.ReplaceAll(alone["Y"], "Y1", "X1") {
+			mc.HarnessError("C03 noconfig: the overrides of line X have no effect")
+		}
+		for _, order := range [][]string{{"X", "Y"}, {"Y", "X"}, {"X", "Y", "X"}, {"Y", "Y", "X"}} {
+			got := runOrder(order)
+			for _, n := range order {
+				c.Eval(1)
+				h := mc.NewHasher().S("noconfig").S(strings.Join(order, "")).S(n).Sum()
+				c.State(h)
+				c.NonTrivial(h)
+				if got[n] != alone[n] {
+					c.Violate("result-depends-on-which-line-generated-the-configuration-file", fmt.Sprintf("project without config.yml, lines run in order %v: line %s differs from the same line run first in a fresh project: %s", order, n, strings.Replace(c18Diff(alone[n], got[n], nil), "edited file gives", "alone gives", 1)), nil)
+					return
+				}
+			}
+		}
+		c.Outcome("noconfig-identical")
 	case "repeat":
 		w := buildBatchWorld(root, 45)
 		extra := []string{"c_MAXAMAX=44", "c_TSUM_1=160", "c_TSUM_2=300", "c_KC_3=1.1", "c_PRO_2_1=0.3", "c_PRO_2_2=0.7", "NDeposition=33", "Fertilization=80", "KcFactorBareSoil=0.5"}
